@@ -195,6 +195,7 @@ type Case struct {
 	Maps     []mapping
 	Statics  []staticVal
 	Overlap  bool   // by the reference predicate
+	Ill      string // one path of one mapping was made to leave the declared types ("" none): see corruptPath
 	Inj      string // the kind of the one declaration that was added last to make the targets overlap ("" none)
 	Hazard   string // the single hostile element put on a used path ("" none)
 	Struct   string // structural feature of the mapping set that is known to be delicate ("" none)
@@ -894,8 +895,70 @@ func tryGenCase(r *mon.Rand) *Case {
 	default:
 		return nil // keep delicate features apart: at most one per case
 	}
+	if !c.Overlap && c.Tgt != tString && c.Struct == "" && r.Prob(0.04) {
+		c.corruptPath(r)
+		if c.computeOverlap() {
+			return nil
+		}
+	}
 	genValues(r, c, roles)
 	return c
+}
+
+// corruptPath makes one path of one mapping leave the declared types: one more
+// element below a string / int / Shape-typed position, or a last element that is not
+// a field of the struct it is looked up in. Compile should refuse such a set; if it
+// accepts it, no run can deliver a value and only an error is right.
+func (c *Case) corruptPath(r *mon.Rand) {
+	for try := 0; try < 12; try++ {
+		mi := r.Intn(len(c.Maps))
+		m := &c.Maps[mi]
+		parentIsStruct := func(root reflect.Type, path []string, source bool) bool {
+			var t reflect.Type
+			var ok bool
+			if source {
+				t, ok = leafTypeSrc(root, path[:len(path)-1])
+			} else {
+				t, ok = leafType(root, path[:len(path)-1])
+			}
+			if !ok {
+				return false
+			}
+			for t.Kind() == reflect.Ptr {
+				t = t.Elem()
+			}
+			return t.Kind() == reflect.Struct
+		}
+		scalarOrShape := func(t reflect.Type) bool {
+			return t != nil && (t.Kind() == reflect.String || t.Kind() == reflect.Int || t == tShape)
+		}
+		switch r.Intn(4) {
+		case 0:
+			if len(m.From) > 0 && !m.src.Dyn && m.src.IfaceAt < 0 && (m.src.Leaf.Kind() == reflect.String || m.src.Leaf.Kind() == reflect.Int) {
+				m.From = clonePath(m.From, mon.PickOne(r, []string{"S", "k1", "x"}))
+				c.Ill = "source-path-continues-below-a-scalar"
+				return
+			}
+		case 1:
+			if len(m.From) > 0 && !m.src.Dyn && m.src.IfaceAt < 0 && parentIsStruct(c.Preds[m.Pred].Type, m.From, true) {
+				m.From = clonePath(m.From[:len(m.From)-1], "Zz")
+				c.Ill = "source-field-not-in-declared-struct"
+				return
+			}
+		case 2:
+			if len(m.To) > 0 && scalarOrShape(m.lt) && !strings.Contains(m.tgt.Shape, "A") {
+				m.To = clonePath(m.To, mon.PickOne(r, []string{"S", "k1", "x"}))
+				c.Ill = "target-path-continues-below-a-scalar-or-non-empty-interface"
+				return
+			}
+		case 3:
+			if len(m.To) > 0 && !strings.Contains(m.tgt.Shape, "A") && parentIsStruct(c.Tgt, m.To, false) {
+				m.To = clonePath(m.To[:len(m.To)-1], "Zz")
+				c.Ill = "target-field-not-in-declared-struct"
+				return
+			}
+		}
+	}
 }
 
 // injectOverlap adds one declaration whose target overlaps an existing one.
@@ -1160,7 +1223,7 @@ func genValues(r *mon.Rand, c *Case, roles map[string]reflect.Type) {
 		}
 	}
 	// at most one hostile element, and only if the set has no delicate structure already
-	if (c.Struct == "" || c.Struct == fRtWithOthers) && !c.Overlap && r.Prob(0.5) {
+	if (c.Struct == "" || c.Struct == fRtWithOthers) && !c.Overlap && c.Ill == "" && r.Prob(0.5) {
 		injectHazard(r, c, roots)
 	}
 	for i, p := range c.Preds {
@@ -1436,6 +1499,7 @@ type witness struct {
 	Overlap   bool     `json:"targets_overlap"`
 	Hazard    string   `json:"hostile_element,omitempty"`
 	Struct    string   `json:"structure,omitempty"`
+	Ill       string   `json:"path_outside_the_declared_types,omitempty"`
 	Values    []string `json:"predecessor_outputs"`
 	Order     string   `json:"declaration_order,omitempty"`
 	Extra     string   `json:"extra,omitempty"`
@@ -1453,7 +1517,7 @@ func (m mapping) String(c *Case) string {
 }
 
 func (c *Case) witness(order string, extra string) witness {
-	w := witness{Target: typeName(c.Tgt), Overlap: c.Overlap, Hazard: c.Hazard, Struct: c.Struct, Order: order, Extra: extra}
+	w := witness{Target: typeName(c.Tgt), Overlap: c.Overlap, Hazard: c.Hazard, Struct: c.Struct, Ill: c.Ill, Order: order, Extra: extra}
 	w.Successor = "lambda"
 	if c.SuccEnd {
 		w.Successor = "END"
